@@ -1,4 +1,5 @@
 import CifModel.Lemmas.ParserTop
+import CifModel.Lemmas.DecodeSpec
 import CifModel.Lemmas.ParserStructure
 import CifModel.Props.C01
 /-
@@ -125,6 +126,49 @@ theorem C01_layout_independent (o : Opts) (d : Doc) (c₁ c₂ : CU) (r₁ r₂ 
     C01_parse_render_partial o d c₂ r₂ pol₂ hstore hmfd hutf hwf hf₂ hb₂ hfu₂ hl₂]
 
 /-! ### the full statements (not proved: they need the structure-level induction over documents) -/
+
+/-! ### the text-field protocols: the model's decoder against the specification's (Spec/TextProtocol.lean)
+
+  `C01_wfDoc` admits a value `.enc text body` exactly when the MODEL's `decodeText` maps the raw body to the text — a predicate phrased
+  with the object under test.  The two theorems below tie it to the specification's decoder, so that the admitted bodies include
+  everything the CIF texts define: a marked body with ANY admissible prefix, folded or not, any blanks behind the marker. -/
+
+/-- **C01_decodeText_spec** — for every admissible prefix (non-empty, no backslash, no line terminator, not starting with `;`; or
+    none, then the field is folded), with or without folding, any blanks behind the marker, any physical lines that carry the prefix:
+    `decode_text` (unfolding and prefix removal enabled) computes exactly the specification's `decode` -/
+theorem C01_decodeText_spec (pre : Str) (hadm : pre = [] ∨ Spec.TextProtocol.admissiblePrefix pre = true)
+    (folded : Bool) (hm : pre ≠ [] ∨ folded = true) (blanks : Str) (hb : blanks.all Spec.TextProtocol.isBlank = true)
+    (p : Str) (ps : List Str) (hp : Lemmas.DecodeLines.NoEol p) (hps : ∀ q ∈ ps, Lemmas.DecodeLines.NoEol q)
+    (hcarry : ∀ l ∈ p :: ps, pre.isPrefixOf l = true) :
+    some (Decode.decodeText true true (Lemmas.DecodeSpec.markerLine pre folded ++ blanks ++ 10 :: Lemmas.DecodeLines.body p ps))
+      = Spec.TextProtocol.decode pre folded (p :: ps) :=
+  Lemmas.DecodeSpec.decodeText_eq_spec pre hadm folded hm blanks hb p ps hp hps hcarry
+
+/-- **C01_wfVal_enc_of_spec** — a raw text-field body that the SPECIFICATION decodes to `text` is admitted by `wfVal` as a
+    presentation of `text` (parser options: line unfolding and prefix removal on — the CIF 2.0 defaults) -/
+theorem C01_wfVal_enc_of_spec (o : Opts) (hun : o.unfold = true) (hpr : o.prem = true)
+    (pre : Str) (hadm : pre = [] ∨ Spec.TextProtocol.admissiblePrefix pre = true)
+    (folded : Bool) (hm : pre ≠ [] ∨ folded = true) (blanks : Str) (hb : blanks.all Spec.TextProtocol.isBlank = true)
+    (p : Str) (ps : List Str) (hp : Lemmas.DecodeLines.NoEol p) (hps : ∀ q ∈ ps, Lemmas.DecodeLines.NoEol q)
+    (hcarry : ∀ l ∈ p :: ps, pre.isPrefixOf l = true) (text : Str)
+    (hdec : Spec.TextProtocol.decode pre folded (p :: ps) = some text) (h0 : noNul text = true) :
+    wfVal o (.enc text (Lemmas.DecodeSpec.markerLine pre folded ++ blanks ++ 10 :: Lemmas.DecodeLines.body p ps)) = true := by
+  have h := C01_decodeText_spec pre hadm folded hm blanks hb p ps hp hps hcarry
+  rw [hdec] at h
+  simp only [Option.some.injEq, List.append_assoc] at h
+  simp [wfVal, hun, hpr, h0, h]
+
+-- an instance with a prefix other than the writer's: `##` with a blank behind the marker, and the same folded
+example : some (Decode.decodeText true true (a!"##\\ \n##ab\n##cd")) = Spec.TextProtocol.decode (a!"##") false [a!"##ab", a!"##cd"]
+    ∧ Decode.decodeText true true (a!"##\\ \n##ab\n##cd") = a!"ab\ncd"
+    ∧ Decode.decodeText true true (a!"##\\\\\n##ab\\\n##cd") = a!"abcd" := by decide +kernel
+
+/-- … and an unmarked body (no CR; it starts with a semicolon or its first line does not end in a backslash followed by blanks) is
+    a presentation of itself -/
+theorem C01_wfVal_enc_plain (o : Opts) (hun : o.unfold = true) (hpr : o.prem = true) (s : Str) (hcr : (13 : CU) ∉ s)
+    (hplain : s.head? = some 59 ∨ Spec.TextProtocol.endsBslBlank (Lemmas.DecodeMarker.firstLine s) = false)
+    (h0 : noNul s = true) : wfVal o (.enc s s) = true := by
+  simp [wfVal, hun, hpr, h0, Lemmas.DecodeMarker.decodeText_plain s hcr hplain]
 
 /-- C01_parse_render: for every well-formed abstract document and every layout, parsing the rendered text under accept-all
     reports nothing and yields the denoted content.  `render`, `denote`, `wf` are parameters here (Python mirror:
